@@ -6,6 +6,7 @@ use std::panic;
 
 mod util;
 mod c14;
+mod c20;
 
 pub struct Report {
     pub cases: u64,
@@ -31,7 +32,8 @@ fn main() {
     panic::set_hook(Box::new(|_| {}));
     let mut r = Report::new();
     match prop {
-        "C14" => c14::run(&mut r),
+        "C14" => { c14::run(&mut r); c20::run(&mut r) }
+        "C20" => c20::run(&mut r),
         _ => {}
     }
     println!("{}", json!({"property": prop, "cases": r.cases, "failing": r.failing}));
